@@ -374,6 +374,7 @@ theorem step_mono (cfg : Cfg) (f : Facts) (st : State) (op : Op) : Mono st (step
   | get p => exact Mono.refl _
   | count => exact Mono.refl _
   | infos t n => exact Mono.refl _
+  | info p => exact Mono.refl _
   | postIdle i => exact mono_postTask st i false
   | probe i => exact Mono.refl _
 
